@@ -801,6 +801,18 @@ def run(ctx, res):
         cases.append(dict(validator=spec, steps=steps,
                           supply=[["s%d" % rng.randint(0, 9), rng.choice([1, 2, 1700000000123, -4, j])]
                                   for j in range(n)]))
+    # ONE validator instance judging values that compare equal in Python but are different JSON values
+    # (1 / True / 1.0, 0 / False / 0.0), in every order: the verdict depends on the datum only, not on what the
+    # instance judged before
+    import itertools
+    for spec in VALIDATORS:
+        for grp in ([["int", 1], ["bool", True], ["float", 1.0]], [["int", 0], ["bool", False], ["float", 0.0]]):
+            for perm in itertools.permutations(grp):
+                steps = []
+                for j, recipe in enumerate(perm):
+                    steps.append(dict(value=list(recipe), wrap=None))
+                    steps.append(dict(value=list(recipe), wrap="simple", eid="q%d" % j, ets=40 + j))
+                cases.append(dict(validator=spec, steps=steps, supply=[["h%d" % j, 2000 + j] for j in range(len(steps))]))
     coq_cases, kept = [], []
     skipped = 0
     ans_cache = {}
